@@ -6,10 +6,12 @@ open IblVerif IblVerif.Proto IblVerif.Converter
 Line protocol of C04 (one history per line):
 
     hist <np24|np21|np1> <n> <ns> <w> <ov> <bin|cbin>[@<k>] <call> <call> …      (@k: the first k shank folders pre-exist, empty)
-    call = <postCheck><compress><deleteOriginal><overwrite><onShank>:<interrupt>:<corrupt>     five 0/1 digits
+    call = <postCheck><compress><deleteOriginal><overwrite><onShank><reuse>:<interrupt>:<corrupt>     six 0/1 digits
+           (reuse = 1: process() again on the converter object of the previous call)
     interrupt = - | s<j> | m<j> | v<k> | c<j> | d            corrupt = - | <shank>.<kp>.<kv>  (altered sample: shank, processing window, verification window)
 
-Answer: one `<result>@<disk>` token per call, the disk after that call.  Parsing and printing only; the
+Answer: one `<result>@<disk>#<object>` token per call: the disk after that call and the object's check_completed /
+already_exists flags (`-` when no object was built).  Parsing and printing only; the
 transition function is `Converter.run`, the one the theorems are about.
 -/
 
@@ -36,8 +38,8 @@ def call? (s : String) : Option Call :=
   match s.splitOn ":" with
   | [b, i, c] =>
     match b.toList.mapM bit?, point? i, alter? c with
-    | some [pc, cp, dl, ow, sh], some ip, some cor =>
-      some { opts := ⟨pc, cp, dl⟩, overwrite := ow, interrupt := ip, corrupt := cor, onShank := sh }
+    | some [pc, cp, dl, ow, sh, ru], some ip, some cor =>
+      some { opts := ⟨pc, cp, dl⟩, overwrite := ow, interrupt := ip, corrupt := cor, onShank := sh, reuse := ru }
     | _, _, _ => none
   | _ => none
 
@@ -70,12 +72,18 @@ def showResult : Result → String
   | .raised .assertion => "raise:assertion"
   | .raised .noOriginal => "raise:noOriginal"
   | .raised .outOfScope => "raise:outOfScope"
+  | .raised .crash => "raise:crash"
+  | .raised .fileNotFound => "raise:fileNotFound"
 
-def history (cfg : Cfg) : Disk → List Call → List String
+def showObj : Option Obj → String
+  | none => "-"
+  | some ob => showBit ob.checkCompleted ++ showBit ob.alreadyExists
+
+def history (cfg : Cfg) : St → List Call → List String
   | _, [] => []
   | s, c :: cs =>
     let r := run cfg c s
-    (showResult r.2 ++ "@" ++ showDisk cfg r.1) :: history cfg r.1 cs
+    (showResult r.2 ++ "@" ++ showDisk cfg r.1.disk ++ "#" ++ showObj r.1.obj) :: history cfg r.1 cs
 
 def step (t : List String) : String :=
   match t with
@@ -90,7 +98,7 @@ def step (t : List String) : String :=
     | some k, some n, some ns, some w, some ov, some o0, some pre, some cs =>
       if w ≤ ov then "err diverges" else
       let cfg : Cfg := { kind := k, n := n, ns := ns, w := w, ov := ov, c := 7 }
-      "ok " ++ " ".intercalate (history cfg (freshWith o0 pre) cs)
+      "ok " ++ " ".intercalate (history cfg (St.start (freshWith o0 pre)) cs)
     | _, _, _, _, _, _, _, _ => "bad-op"
   | ["counts", ns, w, ov] =>
     match nat? ns, nat? w, nat? ov with
